@@ -124,7 +124,9 @@ def janssen_case(draw):
               "gen_params": {k: draw(fl(0.5, 1.5)) for k in GEN_DEFAULTS} if draw(st.integers(0, 2)) == 0 else {},
               "viscous": draw(st.sampled_from([0.0, 0.0, 0.1])),
               "aligned": draw(st.booleans()),
-              "reuse_terms": draw(st.booleans())})
+              "reuse_terms": draw(st.booleans()),
+              # U10 as stored in an integer array (whole metres per second)
+              "integer_winds": draw(st.integers(0, 3)) == 0})
     return c
 
 
@@ -148,12 +150,19 @@ def run_janssen(c):
     it = c["input_type"]
     wdir_v = [p.get("theta", 0.0) if c["aligned"] else w for p, w in zip(c["points"], c["wdir"])]
     speed_v = list(c["u10"]) if it == "u10" else [u / 28.0 for u in c["u10"]]
+    int_winds = bool(c.get("integer_winds")) and it == "u10"
+    if int_winds:
+        speed_v = [float(max(1, round(u))) for u in speed_v]
     speed, wdir = W.da(speed_v, spec), W.da(wdir_v, spec)
+    if int_winds:
+        speed = speed.astype("int64")
     z = np.asarray(gen.roughness(speed, wdir, spec, wind_speed_input_type=it).values, dtype=float)
     require(z.shape == (n,), "output_shape", f"{z.shape}")
     classes = ["input_" + it]
     if c.get("reuse_terms"):
         classes.append("term_object_used_before_on_another_grid_of_the_same_shape")
+    if int_winds:
+        classes.append("integer_stored_winds")
     nontriv = False
     single = 0
     ells = np.linspace(-20.0, 0.0, NSCAN + 2)[1:-1]
